@@ -219,9 +219,12 @@ class StubSolver:
         if not self.checks or self.checks[-1]["verdict"] != UNSAT:
             raise z3.Z3Exception("core is not available")
         core = []
-        for name in sorted(self.tracked):
-            if self.core_mode == "all" or (self.core_mode == "choice" and self.ex.choose(2, "core") == 0):
-                core.append(z3.Bool(name))
+        if callable(self.core_mode):
+            core = list(self.core_mode(self))
+        else:
+            for name in sorted(self.tracked):
+                if self.core_mode == "all" or (self.core_mode == "choice" and self.ex.choose(2, "core") == 0):
+                    core.append(z3.Bool(name))
         self.calls.append(("unsat_core", [str(c) for c in core]))
         self.last_core = core
         return core
